@@ -66,46 +66,132 @@ variable {Hash : Type} (leafH : Bytes → Hash) (nodeH : Hash → Hash → Hash)
 
 def Backend.root (b : Backend) : Hash := mth leafH nodeH emptyH b.values
 
-/-- The tree head the front end serves (without the signature): size, millisecond timestamp, root. -/
+/-! ### the backend RPCs the read handlers use — the *assumed* contract (what `verifkit.RefLog` implements)
+
+Every reply carries the current log root (only its size matters to the handlers); `none` is an RPC
+error status. -/
+
+/-- GetLatestSignedLogRoot: the published root -/
+structure RootReply (Hash : Type) where
+  size : Nat
+  hash : Hash
+  tsNanos : Nat
+
+def Backend.rpcLatestRoot (b : Backend) : RootReply Hash := ⟨b.leaves.length, b.root leafH nodeH emptyH, b.tsNanos⟩
+
+structure ConsReply (Hash : Type) where
+  rootSize : Nat
+  proof : Option (List Hash)      -- absent when the tree is smaller than requested
+
+/-- GetConsistencyProof(first_tree_size, second_tree_size) -/
+def Backend.rpcConsistency (b : Backend) (first second : Int) : Option (ConsReply Hash) :=
+  if first ≤ 0 ∨ second < first then none
+  else if b.leaves.length < second.toNat then some ⟨b.leaves.length, none⟩
+  else some ⟨b.leaves.length,
+    some (if first.toNat = second.toNat then [] else consProof leafH nodeH emptyH first.toNat (b.values.take second.toNat))⟩
+
+structure EntryReply (Hash : Type) where
+  rootSize : Nat
+  leaf : Option Leaf
+  proof : Option (List Hash)
+
+/-- GetEntryAndProof(leaf_index, tree_size) -/
+def Backend.rpcEntryAndProof (b : Backend) (idx size : Int) : Option (EntryReply Hash) :=
+  if size ≤ 0 ∨ idx < 0 ∨ idx ≥ size then none
+  else if b.leaves.length < size.toNat then some ⟨b.leaves.length, none, none⟩
+  else some ⟨b.leaves.length, b.leaves[idx.toNat]?, some (path leafH nodeH emptyH idx.toNat (b.values.take size.toNat))⟩
+
+/-- the tree head the front end serves (without the signature): size, millisecond timestamp, root -/
 structure Head (Hash : Type) where
   size : Int
   ts : Int
   root : Hash
 
-def served (b : Backend) : Head Hash :=
-  ⟨Gen.sthTreeSize b.leaves.length, Gen.sthTimestamp b.tsNanos, b.root leafH nodeH emptyH⟩
+/-- `LogSTHGetter.GetSTH`: the served head from the backend's root reply — size and timestamp through
+    the regenerated conversions, the root hash copied (`copy(sth.SHA256RootHash[:], …)`, hand-written). -/
+def headOf (r : RootReply Hash) : Head Hash := ⟨Gen.sthTreeSize r.size, Gen.sthTimestamp r.tsNanos, r.hash⟩
 
-/-- get-sth-consistency?first=m&second=n (both present, parsed): 400 unless `0 ≤ m ≤ n`; `m = 0`
-    answers the empty proof without a backend call; otherwise the backend's proof, 400 if the tree is
-    smaller than `n`. -/
-def getConsistency (b : Backend) (first second : Int) : Option (List Hash) :=
+def served (b : Backend) : Head Hash := headOf (b.rpcLatestRoot leafH nodeH emptyH)
+
+/-! ### the handlers: parameters → request → reply → response (`handlers.go`)
+
+Which parameter goes into which request field, the tree-size guards and which reply fields are relayed
+are the regenerated `Gen.req…`, `Gen.…RootTooSmall`, `Gen.relay…`; a swap in the source swaps the term. -/
+
+/-- get-sth-consistency?first=…&second=… (both present and numeric) against any backend `rpc` -/
+def handleConsistency (rpc : Int → Int → Option (ConsReply Hash)) (first second : Int) : Option (List Hash) :=
   match Gen.parseGetSTHConsistencyRange false false first second with
-  | none => none
+  | none => none                                          -- 400
   | some (f, s) =>
-    if f = 0 then some []
-    else if b.leaves.length < s.toNat then none
-    else some (if f.toNat = s.toNat then [] else consProof leafH nodeH emptyH f.toNat (b.values.take s.toNat))
+    if !Gen.consNeedsBackend f then some []               -- first = 0: empty proof, no backend call
+    else
+      let q := Gen.reqGetConsistencyProof f s
+      match rpc q.1 q.2 with
+      | none => none                                      -- backend error
+      | some r =>
+        if Gen.consRootTooSmall r.rootSize s then none    -- 400
+        else match r.proof with
+          | none => none                                  -- 500
+          | some hs => some (Gen.relayConsistency hs)
 
-variable [DecidableEq Hash]
-
-/-- get-proof-by-hash: the lowest index below `n` whose leaf hash is `h`, with its audit path in the tree of size `n`. -/
-def getProofByHash (b : Backend) (h : Hash) (n : Int) : Option (Nat × List Hash) :=
-  if n < 1 then none
-  else if b.leaves.length < n.toNat then none
-  else
-    match (b.values.take n.toNat).findIdx? (fun v => leafH v == h) with
-    | none => none
-    | some i => some (i, path leafH nodeH emptyH i (b.values.take n.toNat))
-
-/-- get-entry-and-proof. -/
-def getEntryAndProof (b : Backend) (idx size : Int) : Option (Leaf × List Hash) :=
+/-- get-entry-and-proof?leaf_index=…&tree_size=… against any backend `rpc` -/
+def handleEntryAndProof (rpc : Int → Int → Option (EntryReply Hash)) (idx size : Int) : Option (Bytes × Bytes × List Hash) :=
   match Gen.parseGetEntryAndProofParams idx size with
   | none => none
   | some (i, n) =>
-    if b.leaves.length < n.toNat then none
-    else match b.leaves[i.toNat]? with
-      | none => none
-      | some l => some (l, path leafH nodeH emptyH i.toNat (b.values.take n.toNat))
+    let q := Gen.reqGetEntryAndProof i n
+    match rpc q.1 q.2 with
+    | none => none
+    | some r =>
+      if Gen.entryAndProofRootTooSmall r.rootSize n then none
+      else match r.leaf, r.proof with
+        | some l, some hs =>
+          if l.value.isEmpty then none
+          else if decide (n > 1) && hs.isEmpty then none
+          else some (Gen.relayEntryAndProof l.value l.extra hs)
+        | _, _ => none
+
+def getConsistency (b : Backend) (first second : Int) : Option (List Hash) :=
+  handleConsistency (b.rpcConsistency leafH nodeH emptyH) first second
+
+def getEntryAndProof (b : Backend) (idx size : Int) : Option (Bytes × Bytes × List Hash) :=
+  handleEntryAndProof (b.rpcEntryAndProof leafH nodeH emptyH) idx size
+
+variable [DecidableEq Hash]
+
+structure ProofsReply (Hash : Type) where
+  rootSize : Nat
+  proofs : List (Nat × List Hash)   -- every index below the requested size holding the hash, in sequence order
+
+/-- GetInclusionProofByHash(leaf_hash, tree_size, order_by_sequence) -/
+def Backend.rpcProofByHash (b : Backend) (h : Hash) (size : Int) : Option (ProofsReply Hash) :=
+  if size ≤ 0 then none
+  else if b.leaves.length < size.toNat then some ⟨b.leaves.length, []⟩
+  else
+    let vs := b.values.take size.toNat
+    -- the lowest index holding the hash first, then every later one (order_by_sequence)
+    match vs.findIdx? (fun v => leafH v == h) with
+    | none => none      -- NotFound
+    | some i =>
+      let later := (List.range vs.length).filter (fun k => decide (i < k) && (match vs[k]? with | some v => leafH v == h | none => false))
+      some ⟨b.leaves.length, (i :: later).map (fun k => (k, path leafH nodeH emptyH k vs))⟩
+
+/-- get-proof-by-hash?hash=…&tree_size=… (hash decodes, size numeric) against any backend `rpc`:
+    the **first** proof of the reply is relayed. -/
+def handleProofByHash (rpc : Hash → Int → Option (ProofsReply Hash)) (h : Hash) (size : Int) : Option (Nat × List Hash) :=
+  if Gen.proofByHashBadSize false size then none
+  else
+    let q := Gen.reqGetInclusionProofByHash h size
+    match rpc q.1 q.2 with
+    | none => none
+    | some r =>
+      if Gen.proofByHashRootTooSmall r.rootSize size then none     -- 404
+      else match r.proofs with
+        | [] => none                                               -- 404
+        | p :: _ => some (Gen.relayProofByHash p.1 p.2)
+
+def getProofByHash (b : Backend) (h : Hash) (n : Int) : Option (Nat × List Hash) :=
+  handleProofByHash (b.rpcProofByHash leafH nodeH emptyH) h n
 
 end
 
@@ -141,7 +227,7 @@ abbrev Cache (Msg Sig : Type) := Option (Msg × Sig)
     section, read the signature. -/
 def cget (c : Cache Msg Sig) (input : Msg) : Option Sig :=
   match c with
-  | some (i, s) => if i = input then some s else none
+  | some (i, s) => if Gen.sigCacheMiss (decide (i = input)) then none else some s
   | none => none
 
 /-- `SignatureCache.SetSignature`: one atomic step. -/
